@@ -1,6 +1,4 @@
 import IrVerif.Props.C06
 open IrVerif.Kernel
 #print axioms C06_atomic
-#print axioms C06_update_atomic
 #print axioms C06_rename_values_atomic
-#print axioms C06_sort_cycle_no_change
